@@ -35,6 +35,7 @@ template <class T> static void consist (Gen<T>& g, int k)
         r.raw ("rotv", jv (q.rotateVector (v))); r.raw ("vq", jv (v * q)); r.raw ("vm33", jv (v * q.toMatrix33 ())); r.raw ("vm44", jv (v * q.toMatrix44 ()));
         r.raw ("m33", jv (q.toMatrix33 ())); r.raw ("m44", jv (q.toMatrix44 ()));
         r.raw ("inv", jv (q.inverse ())); r.raw ("qinv", jv (q * q.inverse ())); r.raw ("conj", jv (~q));
+        { Quat<T> qi = q; Quat<T>& ret = qi.invert (); r.raw ("invert", jv (qi)); r.num ("invself", &ret == &qi); }
         r.raw ("explog", jv (q.log ().exp ()));
         Quat<T> aa; aa.setAxisAngle (q.axis (), q.angle ());
         r.raw ("axisangle", jv (aa));
